@@ -1,5 +1,7 @@
 #!/bin/bash
 # ./check.sh <ID> quick|thorough      ./check.sh <ID> --replay <file>
+# POLLIWOG_REPO (default /repo) points the same check at a scratch copy (development / mutation testing only).
 cd "$(dirname "$0")"
-export PYTHONHASHSEED=0 PYTHONPATH=/repo POLLIWOG_VERIF=1 PYTHONDONTWRITEBYTECODE=1
+export POLLIWOG_REPO="${POLLIWOG_REPO:-/repo}"
+export PYTHONHASHSEED=0 PYTHONPATH="$POLLIWOG_REPO" POLLIWOG_VERIF=1 PYTHONDONTWRITEBYTECODE=1
 exec /venv/bin/python tools/driver.py "$@"
